@@ -168,6 +168,9 @@ def main() -> int:
             harness_errors.append(f"{r['name']}: {r['detail'][:600]}")
         elif r["status"] == "inconclusive":
             inconclusive.append(r["name"])
+        elif r.get("inconclusive_conditions"):
+            # some conditions of this obligation were decided (a finding, a violation), others timed out: say so
+            inconclusive.append(f"{r['name']} [{', '.join(r['inconclusive_conditions'][:4])}]")
         elif r["status"] == "violated" and not r.get("witnesses") and not r.get("known_hits"):
             harness_errors.append(f"{r['name']}: 'violated' without a witness")
         if r["status"] == "holds" and not r.get("nontrivial", True):
